@@ -76,16 +76,28 @@ fn main() {
             let h = rec.handle();
             metrics::with_local_recorder(&rec, || {
                 match kind {
-                    0 => { if described { metrics::describe_counter!("m", unit.clone().unwrap_or(metrics::Unit::Count), "d"); } metrics::counter!("m", "k" => "v").increment(1); }
-                    1 => { if described { metrics::describe_gauge!("m", unit.clone().unwrap_or(metrics::Unit::Count), "d"); } metrics::gauge!("m", "k" => "v").set(1.0); }
+                    0 => { if described { metrics::describe_counter!("m", unit.clone().unwrap_or(metrics::Unit::Count), "d"); } metrics::counter!("m", "k" => "v").absolute(if plan.inputs.contains_key("value") { inp("value") } else { 1 }); }
+                    1 => { if described { metrics::describe_gauge!("m", unit.clone().unwrap_or(metrics::Unit::Count), "d"); } metrics::gauge!("m", "k" => "v").set(if plan.inputs.contains_key("value") { f64::from_bits(inp("value")) } else { 1.0 }); }
                     _ => { if described { metrics::describe_histogram!("m", unit.clone().unwrap_or(metrics::Unit::Count), "d"); } metrics::histogram!("m", "k" => "v").record(0.5); }
                 }
             });
             let text = h.render();
             println!("{}", text);
-            if let Err(e) = check_exposition(&text) {
-                println!("strict parser: {}", e);
-                v.push("well_formed_exposition"); v.push("samples_belong_to_their_family"); v.push("K5_unit_suffix_after_family_name");
+            match check_exposition(&text) {
+                Err(e) => {
+                    println!("strict parser: {}", e);
+                    v.push("well_formed_exposition"); v.push("samples_belong_to_their_family"); v.push("K5_unit_suffix_after_family_name");
+                }
+                Ok(lines) => {
+                    if plan.inputs.contains_key("value") && kind <= 1 {
+                        let vals: Vec<String> = lines.iter().filter_map(|l| if let Line::Sample(s) = l { Some(s.value.clone()) } else { None }).collect();
+                        let ok = vals.len() == 1 && if kind == 0 { vals[0].parse::<u64>().ok() == Some(inp("value")) } else {
+                            let want = f64::from_bits(inp("value"));
+                            match vals[0].parse::<f64>() { Ok(x) => x.to_bits() == want.to_bits() || (x.is_nan() && want.is_nan()), Err(_) => false } };
+                        println!("stored value bits {:#x}; rendered value(s) {:?}; reads back exactly: {}", inp("value"), vals, ok);
+                        if !ok { v.push("value_is_the_stored_value"); }
+                    }
+                }
             }
         }
         s => panic!("unknown scenario {}", s),
